@@ -37,7 +37,7 @@ impl Property for C19 {
         }
     }
     fn rule(&self) -> &'static str {
-        "per run: machine, sample rate (9 standard rates 8000..384000 or random), volume 0..100, beeper/AY enables (AY optionally programmed with random registers), 3..10 frames each with 0..20 writes of bits 4/3 to port 0xFE at seeded T, SZX snapshot loads between frames (speaker/MIC levels taken from the file), drain policy always / every j-th frame / never with multi-frame host calls; oracle: samples per frame, per-sample beeper level +-1 sample, bounds, queue bound; distinct = (rate, machine, drain policy, toggles-per-frame bucket, device enables)"
+        "per run: machine, sample rate (9 standard rates 8000..384000 or random), volume 0..100, beeper/AY enables (AY optionally programmed with random registers), 3..10 frames each with 0..20 writes of bits 4/3 to port 0xFE at seeded T, SZX snapshot loads between frames (speaker/MIC levels taken from the file), drain policy always / every j-th frame / never with multi-frame host calls; oracle: samples per frame, per-sample beeper level +-1 sample, bounds, queue bound; snapshot loads between frames: SZX at frame start, SZX taken inside a frame, SNA, optionally over a halted CPU; distinct = (rate, machine, drain policy, toggles-per-frame bucket, device enables)"
     }
     fn state_measure(&self) -> &'static str {
         "distinct (samples-per-frame, toggle position in samples) pairs checked"
